@@ -78,3 +78,8 @@ Definition ctz (w x : Z) : Z := match x with Zpos p => ctz_pos p | _ => w end.
 Fixpoint popcount_pos (p : positive) : Z :=
   match p with xH => 1 | xO q => popcount_pos q | xI q => 1 + popcount_pos q end.
 Definition popcount (x : Z) : Z := match x with Zpos p => popcount_pos p | _ => 0 end.
+
+(** The result of a translated function whose data-dependent loop needed more iterations than the "unroll" bound
+    its target gives: a value outside every C integer type, so that no Tie lemma (whose right-hand side is a value
+    of the C result type) can hold on an argument that exhausts the bound. *)
+Definition loop_exhausted : Z := 2 ^ 200.
